@@ -287,5 +287,103 @@ func cmdFidelity(args []string) error {
 		}
 		emit(rec)
 	}
+
+	// several messages accepted back to back, then ONE batch read: what a consumer gets for each of them must be what was
+	// accepted for that one (the multi-row lease path of the durable store, buffers re-used between requests, and a sender
+	// supplying a header the auth service is configured to set)
+	for i := 0; i < *n/3; i++ {
+		backend := pick(r, []string{"memory", "sqlite"})
+		via := pick(r, []string{"http", "grpc"})
+		fwd := r.chance(40)
+		text := "pull_api {\n  auth token raw:t\n}\n/f {\n  pull { path /pull/f }\n}\n"
+		var extra [][2]string
+		if fwd {
+			text = fmt.Sprintf("pull_api {\n  auth token raw:t\n}\n/f {\n  auth forward \"%s/check\" {\n    copy_headers \"X-User-Id\"\n    copy_headers \"x-org\"\n  }\n  pull { path /pull/f }\n}\n", authStub.URL)
+			extra = [][2]string{{"X-User-Id", "u42"}, {"X-Org", "o1,o2"}}
+		}
+		compiled, err := compileText(text)
+		if err != nil {
+			emit(map[string]interface{}{"k": "cfgerror", "stage": "fidmulti", "err": err.Error(), "text": text})
+			continue
+		}
+		rt, err := app.VerifNewRuntime(compiled, clock.Now)
+		if err != nil {
+			return err
+		}
+		var store queue.Store
+		dbPath := filepath.Join(dir, fmt.Sprintf("fm%d.db", i))
+		if backend == "memory" {
+			store = queue.NewMemoryStore(queue.WithNowFunc(clock.Now))
+		} else {
+			sq, err := queue.NewSQLiteStore(dbPath, queue.WithSQLiteNowFunc(clock.Now))
+			if err != nil {
+				return err
+			}
+			store = sq
+		}
+		k := 2 + r.intn(3)
+		var sent []map[string]interface{}
+		ing := rt.IngressServer(store)
+		for m := 0; m < k; m++ {
+			// same length on purpose in half of the cases: a re-used buffer would fit exactly
+			ln := pick(r, []int{8, 8, 8, 3, 40})
+			body := make([]byte, ln)
+			for x := range body {
+				body[x] = byte('a' + (m*7+x)%26)
+			}
+			req := httptest.NewRequest("POST", "http://ex/f", bytes.NewReader(body))
+			req.Header.Set("X-Msg", fmt.Sprint(m))
+			if r.chance(50) {
+				req.Header.Set("X-User-Id", "sender-says-admin") // the name the auth service sets
+			}
+			if r.chance(30) {
+				req.Header.Add("X-Org", "sender-org")
+			}
+			hdrs := sortedPairs(req.Header.Clone())
+			rr := httptest.NewRecorder()
+			ing.ServeHTTP(rr, req)
+			sent = append(sent, map[string]interface{}{"body": hex.EncodeToString(body), "reqHeaders": hdrs, "status": rr.Code})
+		}
+		var got []map[string]interface{}
+		if via == "http" {
+			preq := httptest.NewRequest("POST", "http://ex/pull/f/dequeue", bytes.NewReader([]byte(fmt.Sprintf(`{"batch":%d}`, k))))
+			preq.Header.Set("Authorization", "Bearer t")
+			prr := httptest.NewRecorder()
+			rt.PullServer(store).ServeHTTP(prr, preq)
+			var resp struct {
+				Items []struct {
+					PayloadB64 string            `json:"payload_b64"`
+					Headers    map[string]string `json:"headers"`
+					Trace      map[string]string `json:"trace"`
+				} `json:"items"`
+			}
+			json.Unmarshal(prr.Body.Bytes(), &resp)
+			for _, it := range resp.Items {
+				p, _ := base64.StdEncoding.DecodeString(it.PayloadB64)
+				got = append(got, map[string]interface{}{"payload": hex.EncodeToString(p), "headers": mapPairs(it.Headers), "trace": mapPairs(it.Trace)})
+			}
+		} else {
+			ctx := metadata.NewIncomingContext(context.Background(), metadata.Pairs("authorization", "Bearer t"))
+			resp, gerr := rt.WorkerServer(rt.PullServer(store)).Dequeue(ctx, &workerapipb.DequeueRequest{Endpoint: "/pull/f", Batch: uint32(k)})
+			if gerr == nil {
+				for _, it := range resp.GetItems() {
+					got = append(got, map[string]interface{}{"payload": hex.EncodeToString(it.GetPayload()), "headers": mapPairs(it.GetHeaders()), "trace": mapPairs(it.GetTrace())})
+				}
+			}
+		}
+		if got == nil {
+			got = []map[string]interface{}{}
+		}
+		if extra == nil {
+			extra = [][2]string{}
+		}
+		emit(map[string]interface{}{"k": "fidmulti", "backend": backend, "via": via, "forwardAuth": fwd, "extra": extra, "sent": sent, "got": got})
+		if c, ok := store.(interface{ Close() error }); ok {
+			_ = c.Close()
+			os.Remove(dbPath)
+			os.Remove(dbPath + "-wal")
+			os.Remove(dbPath + "-shm")
+		}
+	}
 	return nil
 }
